@@ -400,6 +400,55 @@ impl Inst for PlainKeyTracked {
     }
 }
 
+/// a large inline value (200 bytes) with drop glue: code that treats entries differently by
+/// their inline size (in-place drops, memcpy thresholds, by-reference hand-over) sees this one
+#[derive(Clone)]
+pub struct FatVal {
+    tag: u32,
+    inner: TVal,
+    pad: [u64; 22],
+}
+impl HeapSize for FatVal {
+    fn heap_size(&self) -> usize {
+        self.inner.heap
+    }
+}
+
+/// drop glue on the value, entry of more than 256 bytes inline
+pub struct FatTracked;
+impl Inst for FatTracked {
+    type K = u8;
+    type Q = u8;
+    type V = FatVal;
+    type S = CBuild;
+    const NAME: &'static str = "LruCache<u8, 200-byte inline V with drop glue>";
+    const TRACKED: bool = true;
+    cmk!();
+    fn key(id: u32) -> u8 {
+        id as u8
+    }
+    fn with_q<R>(id: u32, f: impl FnOnce(&u8) -> R) -> R {
+        f(&(id as u8))
+    }
+    fn kid(k: &u8) -> u32 {
+        *k as u32
+    }
+    fn val(tag: u32, sel: usize) -> FatVal {
+        FatVal { tag, inner: TVal::new(VIEW_LENS[sel]), pad: [tag as u64 ^ 0x5555_5555_5555_5555; 22] }
+    }
+    fn vtag(v: &FatVal) -> u32 {
+        check_live(v.inner.serial, false, "value reached through the cache");
+        if v.pad.iter().any(|w| *w != v.tag as u64 ^ 0x5555_5555_5555_5555) {
+            // the inline payload must travel with the value
+            return u32::MAX - 1;
+        }
+        v.tag
+    }
+    fn resize(v: &mut FatVal, sel: usize) {
+        v.inner.heap = VIEW_LENS[sel];
+    }
+}
+
 // ---------------------------------------------------------------------------
 // alphabet
 // ---------------------------------------------------------------------------
@@ -428,6 +477,10 @@ pub enum IOp {
     Retain(u8),
     Reserve,
     TryReserve,
+    /// a reservation that must fail and leave the cache as it was: 0 try_reserve(usize::MAX / 2)
+    /// (refused when the new table is sized), 1 try_reserve(usize::MAX) (len + additional
+    /// overflows), 2 reserve(usize::MAX / 2) (documented panic, caught)
+    ReserveFail(u8),
     ShrinkToFit,
     ShrinkTo0,
     Clear,
@@ -480,7 +533,7 @@ fn alphabet<T: Inst>() -> Vec<IOp> {
     for i in 0..4 {
         a.push(IOp::Retain(i));
     }
-    a.extend([IOp::Reserve, IOp::TryReserve, IOp::ShrinkToFit, IOp::ShrinkTo0, IOp::Clear, IOp::CloneSwap]);
+    a.extend([IOp::Reserve, IOp::TryReserve, IOp::ReserveFail(0), IOp::ReserveFail(2), IOp::ShrinkToFit, IOp::ShrinkTo0, IOp::Clear, IOp::CloneSwap]);
     for i in 0..4 {
         a.push(IOp::CloneFrom(i));
     }
@@ -711,6 +764,11 @@ struct Run<T: Inst> {
     /// read-only operation: the raw layout must not change
     read_only: bool,
     source_changed: bool,
+    /// the target of a clone_from that is in progress: if user code panics in the
+    /// middle of it the half-built target is still here (it survives the unwind,
+    /// as it does in a program that catches the panic) and is judged by the
+    /// post-fault oracle
+    pending: Option<LruCache<T::K, T::V, T::S>>,
 }
 
 impl<T: Inst> Run<T> {
@@ -734,6 +792,7 @@ impl<T: Inst> Run<T> {
             zero_hash_op: false,
             read_only: false,
             source_changed: false,
+            pending: None,
         }
     }
 
@@ -996,6 +1055,25 @@ impl<T: Inst> Run<T> {
                 self.is_rebuild_op = true;
                 (R::ReserveOk(self.c.try_reserve(9).is_ok()), R::ReserveOk(true))
             }
+            IOp::ReserveFail(i) => {
+                // may hash every entry before it finds out that it cannot succeed
+                self.is_rebuild_op = true;
+                // "leaves the cache exactly as it was"
+                self.read_only = true;
+                let ok = match i {
+                    0 => self.c.try_reserve(usize::MAX / 2).is_ok(),
+                    1 => self.c.try_reserve(usize::MAX).is_ok(),
+                    _ => {
+                        let c = &mut self.c;
+                        match std::panic::catch_unwind(std::panic::AssertUnwindSafe(|| c.reserve(usize::MAX / 2))) {
+                            Ok(()) => true,
+                            Err(e) if e.downcast_ref::<InjectedPanic>().is_some() => std::panic::resume_unwind(e),
+                            Err(_) => false,
+                        }
+                    }
+                };
+                (R::ReserveOk(ok), R::ReserveOk(false))
+            }
             IOp::ShrinkToFit => {
                 self.is_rebuild_op = true;
                 self.c.shrink_to_fit();
@@ -1033,7 +1111,7 @@ impl<T: Inst> Run<T> {
                 let saved_fuel = fuel();
                 set_fuel(None);
                 let saved_counts = counts();
-                let mut target: LruCache<T::K, T::V, T::S> = match t {
+                let target: LruCache<T::K, T::V, T::S> = match t {
                     0 => T::mk(0, None, self.hk),
                     1 => {
                         let mut x = T::mk(usize::MAX, Some(16), other);
@@ -1058,7 +1136,9 @@ impl<T: Inst> Run<T> {
                 let tl = target.len();
                 let before = dump_fingerprint(&self.c.verif_dump());
                 self.hash_exclude = hashes() - p0;
-                target.clone_from(&self.c);
+                self.pending = Some(target);
+                self.pending.as_mut().unwrap().clone_from(&self.c);
+                let target = self.pending.take().unwrap();
                 self.source_changed = before != dump_fingerprint(&self.c.verif_dump());
                 // the target's old entries leave it
                 self.departed = tl;
@@ -1185,7 +1265,7 @@ fn owner(op: IOp) -> Props {
         IOp::Mutate(..) => p(11),
         IOp::SetMax(_) => p(3) | p(1),
         IOp::Retain(_) => p(15),
-        IOp::Reserve | IOp::TryReserve | IOp::ShrinkToFit | IOp::ShrinkTo0 => p(13),
+        IOp::Reserve | IOp::TryReserve | IOp::ReserveFail(_) | IOp::ShrinkToFit | IOp::ShrinkTo0 => p(13),
         IOp::Clear => p(2) | p(6),
         IOp::CloneSwap | IOp::CloneFrom(_) => p(14),
         IOp::Drain(_) => p(12),
@@ -1285,6 +1365,7 @@ fn code(op: IOp) -> [u8; 3] {
         IOp::Owning(a, b) => [27, a, b],
         IOp::ReadAll => [28, 0, 0],
         IOp::CloneDisturb(i) => [29, i, 0],
+        IOp::ReserveFail(i) => [30, i, 0],
     }
 }
 
@@ -1321,6 +1402,7 @@ fn uncode(c: &[u8]) -> Option<IOp> {
         27 => IOp::Owning(c[1], c[2]),
         28 => IOp::ReadAll,
         29 => IOp::CloneDisturb(c[1]),
+        30 => IOp::ReserveFail(c[1]),
         _ => return None,
     })
 }
@@ -1401,6 +1483,17 @@ pub fn describe_raw(job_id: u64, b: &[u8]) -> Vec<String> {
 }
 
 /// Properties that own a crash / hang recorded in `raw` ("<job>:<hex>"), and its description.
+/// `why`: what happened (a stall in an evicting operation is owned by the accounting property
+/// as well: the only state-dependent loop of the crate is the eviction loop, which fails to end
+/// exactly when current_size exceeds what the held entries account for)
+pub fn owned_by_why(raw: &str, why: &str) -> (Props, Vec<String>) {
+    let (mut props, text) = owned_by(raw);
+    if why.contains("no progress") && text.iter().any(|l| l.contains("evicting-last-op")) {
+        props |= p(2);
+    }
+    (props, text.into_iter().filter(|l| !l.contains("evicting-last-op")).collect())
+}
+
 pub fn owned_by(raw: &str) -> (Props, Vec<String>) {
     let Some((job, hex)) = raw.split_once(':') else { return (0, vec![]) };
     let b: Vec<u8> = (0..hex.len() / 2).filter_map(|i| u8::from_str_radix(&hex[2 * i..2 * i + 2], 16).ok()).collect();
@@ -1428,7 +1521,11 @@ pub fn owned_by(raw: &str) -> (Props, Vec<String>) {
     if b.first() == Some(&2) {
         props = p(12) | p(5) | p(6) | p(7);
     }
-    (props, describe_raw(job.parse().unwrap_or(0), &b))
+    let mut text = describe_raw(job.parse().unwrap_or(0), &b);
+    if matches!(last, Some(IOp::Insert(..) | IOp::Mutate(..) | IOp::SetMax(_))) && b.first() == Some(&0) {
+        text.push("evicting-last-op".into());
+    }
+    (props, text)
 }
 
 fn raw_key(job: &Job, rec: &[u8]) -> String {
@@ -1614,7 +1711,11 @@ fn run_seq<T: Inst>(job: &Job, sm: [usize; 5], seq: &[IOp], out: &mut InstResult
             }
         }
         if run.read_only && dump_fingerprint(&d) != pre_fp {
-            problems.push((p(19), "C19.unchanged", "a read-only operation changed the raw layout of the cache".to_string()));
+            if matches!(last, IOp::ReserveFail(_)) {
+                problems.push((p(13), "C13.failed-unchanged", "a failing reservation changed the raw layout of the cache".to_string()));
+            } else {
+                problems.push((p(19), "C19.unchanged", "a read-only operation changed the raw layout of the cache".to_string()));
+            }
         }
         if run.source_changed {
             problems.push((p(19) | p(14), "C14.source", "cloning changed the raw layout of the source".to_string()));
@@ -1643,7 +1744,7 @@ fn run_seq<T: Inst>(job: &Job, sm: [usize; 5], seq: &[IOp], out: &mut InstResult
                 let found = quiet(|| T::with_q(id, |q| c.peek_entry(q).map(|(k, v)| (T::kid(k), T::vtag(v)))));
                 let has = quiet(|| T::with_q(id, |q| c.contains(q)));
                 if found != held || has != held.is_some() {
-                    problems.push((own | p(4), "C04.lookup", format!("peek_entry of key {id} finds {found:?}, contains says {has}, but the cache holds {held:?}")));
+                    problems.push((own | p(4) | p(7), "C04.lookup", format!("peek_entry of key {id} finds {found:?}, contains says {has}, but the cache holds {held:?}")));
                     break;
                 }
             }
@@ -1670,6 +1771,20 @@ fn run_seq<T: Inst>(job: &Job, sm: [usize; 5], seq: &[IOp], out: &mut InstResult
                     }
                 }
             }
+            }
+        }
+        // "mutate ... updates its accounted size to the new value's size": what is accounted for
+        // the mutated entry is what its removal gives back (a probe on this run's own cache,
+        // which is discarded afterwards)
+        if let IOp::Mutate(k, _) = last {
+            let ok_so_far = problems.is_empty() && got_it == want;
+            if let (true, Some(x)) = (ok_so_far, run.m.l.iter().find(|x| x.id == k)) {
+                let expect = model_sum - x.size;
+                let removed = quiet(|| T::with_q(k, |q| run.c.remove(q).is_some()));
+                let now = run.c.current_size();
+                if removed && now != expect {
+                    problems.push((p(11) | p(2), "C11.accounted", format!("after the mutate, removing the mutated entry (accounted with {} bytes) leaves current_size() = {now}, expected {expect}", x.size)));
+                }
             }
         }
         let cls = if run.leaky { "inst:leaky" } else { outcome_class(&act) };
@@ -1773,6 +1888,22 @@ fn run_job<T: Inst>(job: Job) -> InstResult {
 
 /// All instantiations x {constant, spread} hasher x {unbounded, tight} start.
 pub fn explore(depth: usize, ladder: usize, deep: usize, huge: &[usize], threads: usize, skips: &[(String, String)]) -> InstResult {
+    explore_for(0, depth, ladder, deep, huge, threads, skips)
+}
+
+/// `sel`: the properties under check. Shallow sequences are judged first (all sequences of
+/// one operation, then of <= 2 operations, each in a pass of its own): a change that lets the accounting drift makes
+/// deeper sequences spin in the eviction loop, and every such hang costs a restart of the
+/// engine - a verdict that a short sequence already gives must not be lost to that.
+pub fn explore_for(sel: Props, depth: usize, ladder: usize, deep: usize, huge: &[usize], threads: usize, skips: &[(String, String)]) -> InstResult {
+    if depth > 2 && sel != 0 {
+        for d in 1..=2 {
+            let shallow = explore_for(sel, d, if d == 1 { 0 } else { ladder.min(12) }, 0, &[], threads, skips);
+            if shallow.violations.iter().any(|v| v.props & sel != 0) {
+                return shallow;
+            }
+        }
+    }
     let skips = std::sync::Arc::new(skips.to_vec());
     type JobFn = Box<dyn FnOnce() -> InstResult + Send>;
     let mut jobs: Vec<JobFn> = vec![];
@@ -1823,6 +1954,7 @@ pub fn explore(depth: usize, ladder: usize, deep: usize, huge: &[usize], threads
     add!(StringVec);
     add!(TrackedKeyView);
     add!(PlainKeyTracked);
+    add!(FatTracked);
     add!(Aligned);
     add!(UnitVal);
     add!(UnitKey);
@@ -2048,10 +2180,41 @@ fn fault_seq<T: Inst>(job: &Job, sm: [usize; 5], seq: &[IOp], out: &mut InstResu
                 let msg = payload.downcast_ref::<String>().cloned().or_else(|| payload.downcast_ref::<&str>().map(|s| s.to_string())).unwrap_or_else(|| "<other>".into());
                 problems.push(("postfault.foreign-panic", format!("a panic other than the injected one: {msg}")));
             }
+            let target_survives = run.pending.is_some();
+            if let Some(target) = run.pending.take() {
+                // a clone_from was interrupted: its half-built target survives the unwind
+                // (as it does in a program that catches the panic) and is the cache that is
+                // used from here on; the source is judged first and dropped
+                out.outcomes.insert("inst:fault-in-clone_from-target-survives");
+                let src = std::mem::replace(&mut run.c, target);
+                let mut sp: Vec<(&'static str, String)> = vec![];
+                match post_fault::<T>(&src, &mut sp) {
+                    None => std::mem::forget(src),
+                    Some(_) => drop(src),
+                }
+                for (rule, why) in sp {
+                    problems.push((rule, format!("source of the interrupted clone_from: {why}")));
+                }
+            }
             let after = post_fault::<T>(&run.c, &mut problems);
             match after {
                 None => std::mem::forget(run),
                 Some(fwd) => {
+                    // "retain ... never change[s] the relative order of the entries that remain", and no
+                    // access promotes any entry but its own: an operation that is cut short by a panic
+                    // has not accessed anything else either
+                    if !target_survives {
+                        let own_key: Option<u32> = match last {
+                            IOp::Insert(k, _) | IOp::TryInsert(k, _) | IOp::Get(k) | IOp::GetEntry(k) | IOp::Touch(k) | IOp::Mutate(k, _) => Some(k),
+                            IOp::GetLru => pre.first().map(|x| x.0),
+                            _ => None,
+                        };
+                        let a: Vec<u32> = pre.iter().map(|x| x.0).filter(|k| Some(*k) != own_key && fwd.iter().any(|y| y.0 == *k)).collect();
+                        let b: Vec<u32> = fwd.iter().map(|x| x.0).filter(|k| Some(*k) != own_key && pre.iter().any(|y| y.0 == *k)).collect();
+                        if a != b {
+                            problems.push(("C05.order-after-panic", format!("the entries that remain changed their relative order: keys LRU to MRU before {:?}, after the caught panic {:?}", pre.iter().map(|x| x.0).collect::<Vec<_>>(), fwd.iter().map(|x| x.0).collect::<Vec<_>>())));
+                        }
+                    }
                     if matches!(kind, Cb::MutPre | Cb::Pred) {
                         if run.c.current_size() > run.c.max_size() {
                             problems.push(("C16.closure-bound", format!("current_size() = {} > max_size() = {} after a panic in the closure", run.c.current_size(), run.c.max_size())));
@@ -2113,7 +2276,7 @@ fn fault_seq<T: Inst>(job: &Job, sm: [usize; 5], seq: &[IOp], out: &mut InstResu
             for (rule, detail) in problems {
                 if out.violations.len() < 64 {
                     out.violations.push(Violation {
-                        props: p(16),
+                        props: if rule == "C05.order-after-panic" { p(5) } else { p(16) },
                         rule,
                         detail: format!(
                             "{} [{}, {}, capacity {:?}]: after {}{:?}, then {:?} with a panic in invocation #{} of {:?}: {}",
@@ -2211,6 +2374,7 @@ pub fn explore_faults(depth: usize, ladder_sizes: &[usize], threads: usize, skip
     add!(StringVec);
     add!(TrackedKeyView);
     add!(PlainKeyTracked);
+    add!(FatTracked);
     add!(Aligned);
     add!(UnitVal);
     add!(UnitKey);
